@@ -4,6 +4,7 @@ package main
 
 import (
 	"context"
+	"errors"
 	"fmt"
 	"os"
 	"strings"
@@ -81,6 +82,8 @@ type observation struct {
 	Escaped bool        `json:"escaped"`
 	CtxBad  bool        `json:"ctxbad"`
 	CtxAtOK bool        `json:"ctxat_ok"`
+	Active  bool        `json:"active_after"` // Channel.IsActive() after the entry point returned
+	NetErr  int         `json:"neterr"`       // 1: a non-timeout net.Error (possibly wrapped) was raised by a handler, 2: a timeout one
 	Extra   interface{} `json:"extra,omitempty"`
 }
 
@@ -187,6 +190,19 @@ func run(c pcase) (o observation) {
 			pl.ContextAt(c.Entry.Pos).Trigger("ev")
 		}
 	}()
+	o.Active = ch.IsActive()
+	for _, r := range vals.Raised {
+		if e, ok := r.(error); ok {
+			var ne *probe.NetErr
+			if errors.As(e, &ne) {
+				if ne.TO && o.NetErr == 0 {
+					o.NetErr = 2
+				} else if !ne.TO {
+					o.NetErr = 1
+				}
+			}
+		}
+	}
 	o.Trace = log.Ev
 	for _, e := range o.Trace {
 		if e.Kind == "visit" && !e.CtxOK {
@@ -310,10 +326,29 @@ func genCase(rng *hx.Rng, meta *hx.Meta, withPanics bool) pcase {
 			if b.B == probe.BPanic {
 				b.PKind = rng.Intn(4)
 				b.Timeout = rng.Bool()
+				b.Wrap = rng.Bool()
 			}
 			h.Beh[k] = b
 		}
 		c.Tbl = append(c.Tbl, h)
+	}
+	if withPanics && rng.Chance(20) {
+		// targeted: a handler panics with a (possibly wrapped) net.Error on a channel-level entry and an
+		// exception handler consumes it - the channel must be closed iff the error is not a timeout
+		var c2 pcase
+		p := hspec{ID: 1, Caps: 1<<uint(probe.KWrite) | 1<<uint(probe.KEvent)}
+		q := hspec{ID: 2, Caps: 1 << uint(probe.KException)}
+		for k := 0; k < 6; k++ {
+			p.Beh[k] = probe.Beh{B: probe.BPanic, PKind: probe.PNetErr, Timeout: rng.Chance(30), Wrap: rng.Bool(), ID: 10 + k}
+			q.Beh[k] = probe.Beh{B: probe.BStop, ID: 20 + k}
+		}
+		c2.Tbl = []hspec{p, q}
+		order := [][]int{{1, 2}, {2, 1}}[rng.Intn(2)]
+		c2.Ops = []opspec{{Kind: "last", HS: order}}
+		c2.Entry = entry{Kind: []string{"chanwrite", "chantrigger"}[rng.Intn(2)]}
+		meta.Count("ops", "last")
+		meta.Count("entry", c2.Entry.Kind+" (net.Error consumed)")
+		return c2
 	}
 	size := 2
 	nops := 1 + rng.Intn(5)
@@ -390,6 +425,10 @@ func main() {
 				o.Panics = append(o.Panics, false)
 			}
 			return c.coq(id, o), false
+		}
+		// C07: a non-timeout net.Error raised under a channel-level entry point closes the channel (wrapped or not)
+		if (c.Entry.Kind == "chanwrite" || c.Entry.Kind == "chantrigger") && o.NetErr == 1 && o.Active {
+			meta.Violate(hx.Violation{Property: "C07", What: "a handler panicked with a non-timeout net.Error (possibly wrapped by another error) under " + c.Entry.Kind + " but the channel is still active", Signature: "net-error-not-closed", Replay: rep})
 		}
 		// oracle 1: structure equals the list specification from both ends
 		want := specList(c.Ops, o.Panics)
